@@ -488,7 +488,109 @@ func httpFunc(recv, name string, extra map[string]shim) transFunc {
 		}, extra)}
 }
 
+// ---- round 4, C07: deriving loggers (logger.go) and the cores' With methods.  A *Logger is the object of the field
+// environment (all ten fields, opaque except `name`); the clone is the second object.  Options are opaque values whose
+// `apply` is an intrinsic on the clone's fields; Core.With is a parameter.
+var lgNames = []string{"core", "development", "addCaller", "onPanic", "onFatal", "name", "errorOutput", "addStack", "callerSkip", "clock"}
+
+func lgFieldMap(prefix string) map[string]fieldSpec {
+	m := map[string]fieldSpec{}
+	for _, n := range lgNames {
+		t := "Lg" + n
+		if n == "name" {
+			t = "string"
+		}
+		if n == "core" {
+			t = "Core"
+		}
+		m[n] = fieldSpec{prefix + n, t}
+	}
+	return m
+}
+
+func loggerFunc(name string, extra map[string]shim) transFunc {
+	return transFunc{file: "logger.go", recv: "Logger", name: name, lean: "Logger_" + name,
+		fields: merge2(lgFieldMap(""), map[string]fieldSpec{"#ev": {"ev", "[]Event"}}), recvAs: &fieldSpec{"self", "Logger"},
+		other: lgFieldMap("o."), otherAs: &fieldSpec{"o.self", "Logger"},
+		types: map[string]string{"*Logger": "Logger", "Field": "Field", "Option": "Option", "zapcore.Core": "Core"},
+		calls: merge(map[string]shim{
+			"Core.With":    {kind: "ext", f: "Core.With", res: []string{"Core"}},
+			"strings.Join": {kind: "ext", f: "strings.Join", res: []string{"string"}},
+		}, extra)}
+}
+
+// the cores' With methods: sub-cores, encoders, sinks, enablers are opaque nil-able values; a derived core is the RECORD
+// of the struct the method builds (so a dropped or swapped field shows); Core.With of a sub-core (`Core.With`),
+// Encoder.Clone (`Encoder.Clone`) and addFields (`addFields`: the fields added to the encoder it is handed) are parameters
+var withTypes = map[string]string{"Core": "opt:Core", "Field": "Field", "zapcore.Field": "Field", "zapcore.Core": "opt:Core",
+	"Entry": "struct:Entry", "*CheckedEntry": "opt:CE", "Level": "i8",
+	"ioCore": "struct:IoCore", "*ioCore": "ptr:struct:IoCore", "multiCore": "[]opt:Core", "sampler": "struct:Sampler", "hooked": "struct:Hooked",
+	"levelFilterCore": "struct:LevelFilter", "contextObserver": "struct:CtxObserver"}
+var withStructs = map[string][]fieldSpec{
+	"Entry":       {{"Level", "i8"}, {"Rest", "opt:EntryRest"}},
+	"IoCore":      {{"LevelEnabler", "opt:LevelEnabler"}, {"enc", "opt:Encoder"}, {"out", "opt:WriteSyncer"}},
+	"Sampler":     {{"Core", "opt:Core"}, {"counts", "opt:Counters"}, {"tick", "opt:Tick"}, {"first", "opt:U64"}, {"thereafter", "opt:U64"}, {"hook", "opt:SamplerHook"}},
+	"Hooked":      {{"Core", "opt:Core"}, {"funcs", "opt:HookFns"}},
+	"LevelFilter": {{"core", "opt:Core"}, {"level", "opt:LevelEnabler"}},
+	"CtxObserver": {{"LevelEnabler", "opt:LevelEnabler"}, {"logs", "opt:ObservedLogs"}, {"context", "[]Field"}},
+}
+var withCalls = map[string]shim{
+	"opt:Core.With":      {kind: "ext", f: "Core.With", res: []string{"opt:Core"}},
+	"opt:Encoder.Clone":  {kind: "ext", f: "Encoder.Clone", res: []string{"opt:Encoder"}},
+	"addFields":          {kind: "mutarg:0", f: "addFields"},
+	"make":               {kind: "ext", f: "make.cores", res: []string{"[]opt:Core"}},
+	"slice.set":          {kind: "ext", f: "slice.set"},
+	"opt:Core.Enabled":   {kind: "ext", f: "Core.Enabled", res: []string{"bool"}},
+	"opt:Core.Check":     {kind: "ext", f: "Core.Check", res: []string{"opt:CE"}},
+	"opt:Core.Write":     {kind: "extstmt", f: "Core.Write", res: []string{"error"}, trace: "#ev"},
+	"opt:Core.Sync":      {kind: "extstmt", f: "Core.Sync", res: []string{"error"}, trace: "#ev"},
+}
+
+func withFunc(file, recv, name string, fields map[string]fieldSpec, recvAs *fieldSpec, extra map[string]shim) transFunc {
+	return transFunc{file: file, recv: recv, name: name, lean: recv + "_" + name, fields: merge2(map[string]fieldSpec{"#ev": {"ev", "[]Event"}}, fields),
+		recvAs: recvAs, types: withTypes, structs: withStructs, calls: merge(withCalls, extra), noFieldAppend: true,
+		implements: map[string]string{"ptr:struct:IoCore": "opt:Core", "[]opt:Core": "opt:Core", "ptr:struct:Sampler": "opt:Core",
+			"ptr:struct:Hooked": "opt:Core", "ptr:struct:LevelFilter": "opt:Core", "ptr:struct:CtxObserver": "opt:Core"}}
+}
+
+var ioWithFields = map[string]fieldSpec{"LevelEnabler": {"en", "opt:LevelEnabler"}, "enc": {"enc", "opt:Encoder"}, "out": {"out", "opt:WriteSyncer"}}
+var samplerWithFields = map[string]fieldSpec{"Core": {"core", "opt:Core"}, "counts": {"counts", "opt:Counters"}, "tick": {"tick", "opt:Tick"},
+	"first": {"first", "opt:U64"}, "thereafter": {"thereafter", "opt:U64"}, "hook": {"hook", "opt:SamplerHook"}}
+var lazyFields = map[string]fieldSpec{"core": {"core", "opt:Core"}, "originalCore": {"orig", "opt:Core"}, "Once": {"done", "bool"}, "fields": {"fields", "[]Field"}}
+var lazyInit = map[string]shim{"recv.initOnce": {kind: "fun", f: "lazyWithCore_initOnce"}}
+
 var transSpecs = []transSpec{
+	{table: "TransDerive", funcs: []transFunc{
+		loggerFunc("clone", nil),
+		loggerFunc("Named", map[string]shim{"recv.clone": {kind: "objectfun", f: "Logger_clone"}}),
+		loggerFunc("With", map[string]shim{"recv.clone": {kind: "objectfun", f: "Logger_clone"}}),
+		loggerFunc("WithOptions", map[string]shim{
+			// c := log.clone(): proved about the source as Logger_clone_matches_source — the copy of every field; from here on
+			// `c` is the primary object.  opt.apply(c) may change any field of the clone (and nothing else)
+			"recv.clone":   {kind: "primary", f: "Logger.clone", flds: lgNames, with: lgNames},
+			"Option.apply": {kind: "extfld", f: "Option.apply", flds: lgNames},
+		}),
+		loggerFunc("WithLazy", map[string]shim{
+			"recv.WithOptions": {kind: "fun", f: "Logger_WithOptions", res: []string{"Logger"}, vari: 1},
+			"WrapCore":         {kind: "ext", f: "WrapCore", res: []string{"Option"}},
+		}),
+		withFunc("zapcore/core.go", "ioCore", "clone", ioWithFields, nil, nil),
+		withFunc("zapcore/core.go", "ioCore", "With", ioWithFields, nil, map[string]shim{
+			"recv.clone": {kind: "fun", f: "ioCore_clone", res: []string{"ptr:struct:IoCore"}}}),
+		withFunc("zapcore/tee.go", "multiCore", "With", nil, &fieldSpec{"mc", "[]opt:Core"}, nil),
+		withFunc("zapcore/sampler.go", "sampler", "With", samplerWithFields, nil, nil),
+		withFunc("zapcore/hook.go", "hooked", "With", map[string]fieldSpec{"Core": {"core", "opt:Core"}, "funcs": {"funcs", "opt:HookFns"}}, nil, nil),
+		withFunc("zapcore/increase_level.go", "levelFilterCore", "With",
+			map[string]fieldSpec{"core": {"core", "opt:Core"}, "level": {"level", "opt:LevelEnabler"}}, nil, nil),
+		withFunc("zaptest/observer/observer.go", "contextObserver", "With",
+			map[string]fieldSpec{"LevelEnabler": {"en", "opt:LevelEnabler"}, "logs": {"logs", "opt:ObservedLogs"}, "context": {"context", "[]Field"}}, nil, nil),
+		withFunc("zapcore/lazy_with.go", "lazyWithCore", "initOnce", lazyFields, nil, map[string]shim{"recv.Once.Do": {kind: "once", flds: []string{"Once"}}}),
+		withFunc("zapcore/lazy_with.go", "lazyWithCore", "With", lazyFields, nil, lazyInit),
+		withFunc("zapcore/lazy_with.go", "lazyWithCore", "Check", lazyFields, nil, lazyInit),
+		withFunc("zapcore/lazy_with.go", "lazyWithCore", "Enabled", lazyFields, nil, lazyInit),
+		withFunc("zapcore/lazy_with.go", "lazyWithCore", "Write", lazyFields, nil, lazyInit),
+		withFunc("zapcore/lazy_with.go", "lazyWithCore", "Sync", lazyFields, nil, lazyInit),
+	}},
 	{table: "TransLevel", funcs: []transFunc{
 		levelFunc("Level", "unmarshalText", nil),
 		levelFunc("Level", "String", nil),
